@@ -8,7 +8,19 @@ def gen_cases(prop, tier, seed, n, profiles=None, frameworks=None, key_hostile=F
     for i in range(n):
         rng = rng_for(prop, seed, i)
         jc = gen.json_case(rng, profile=rng.choice(profiles) if profiles else None)
+        if i % 25 == 11:
+            # several objects of one shape (one merge group) whose list / dict field was seen empty, null-only and filled in turn
+            variants = [[], [None], [1], [], [None, None], ["s"], [1.5], [[]], [{}]]
+            dvariants = [{}, {"k1": None}, {"k1": 1}, {}, {"k1": "s"}]
+            def leaf():
+                return {"x": rng.choice(variants), "m": rng.choice(dvariants), "k": 1, "n": "s"}
+            smp = {"a": [leaf() for _ in range(rng.randint(1, 3))], "b": leaf(), "c": leaf()}
+            if rng.random() < 0.5:
+                smp["d"] = {"inner": leaf()}
+            jc = {"profile": "mergelists", "samples": [smp] + ([{"b": leaf()}] if rng.random() < 0.4 else [])}
         opts = gen.options(rng, jc["samples"], frameworks=frameworks)
+        if jc["profile"] == "mergelists":
+            opts["dkr"] = [r"k\d+"]
         models = [["Root", jc["samples"]]] + maybe_second_root(rng, jc["samples"], jc["profile"])
         cases.append({"i": i, "profile": jc["profile"], "models": models, "opts": opts})
     return cases
